@@ -41,7 +41,7 @@ ORCH = 'chainables.orchestrate'
 
 
 def run(ctx: Ctx):
-  for r in (r1, r2, r3, r4, r5, r6, r7, r8, r9, r11, r12, r13, r14, r15, r16, r17, r18):
+  for r in (r1, r2, r3, r4, r5, r6, r7, r8, r9, r11, r12, r13, r14, r15, r16, r17, r18, r19):
     ctx.guard(r)
   from mlmverif.props import c06
   ctx.include('R-C20-10', '"liveness is a function only of the last recorded heartbeat": the'
@@ -1470,22 +1470,56 @@ def r18(ctx: Ctx):
   ctx.floor(rule, 2, n)
 
 
+def r19(ctx: Ctx):
+  rule = 'R-C20-19'
+  ctx.rule(rule, '"recorded heartbeats never move backwards": every method of the registry that stores a TIME (not the dead marker)'
+           ' stores it relative to the entry it replaces — the stored value is `max(<previous>, <new>)` whenever a previous'
+           ' time exists (`<new> if <previous> is None else max(...)`, or a store guarded by `<previous> is not None`). An'
+           ' unconditional `self.data[address] = time_` lets an alive-notice whose time stamp was taken before a newer'
+           ' heartbeat was recorded overwrite it: the heartbeat of a live worker goes back, and liveness with it')
+  ci = ctx.repo.cls(CU, 'WorkerRegistry')
+  n = 0
+  for name, fi in ci.methods.items():
+    for x in ast.walk(fi.node):
+      if not (isinstance(x, ast.Assign) and isinstance(x.targets[0], ast.Subscript) and unparse(x.targets[0].value) == 'self.data'):
+        continue
+      if isinstance(x.value, ast.Constant) and x.value.value is None:
+        continue
+      n += 1
+      is_max = lambda e: any(isinstance(c, ast.Call) and unparse(c.func) == 'max' and len(c.args) >= 2 for c in ast.walk(e))
+      has_max = is_max(x.value) or (isinstance(x.value, ast.Name) and any(
+          isinstance(y, ast.Assign) and any(isinstance(t, ast.Name) and t.id == x.value.id for t in y.targets) and is_max(y.value)
+          for y in ast.walk(fi.node)))
+      what = f'WorkerRegistry.{name}: a stored time is never older than the one it replaces'
+      if has_max:
+        ctx.ok(rule, fi, what, x)
+      else:
+        ctx.fail(rule, fi, what,
+                 f'`{unparse(x)[:70]}` in WorkerRegistry.{name} overwrites the recorded time unconditionally: a (re-)registration'
+                 ' carrying an older time stamp than the last refresh moves the heartbeat of a live worker backwards', node=x)
+  ctx.floor(rule, 2, n)
+
+
 from mlmverif.selfcheck import B, OK  # noqa: E402
 
 _U = 'utils/courier_utils.py'
 _W = 'chainables/courier_worker.py'
 _O = 'chainables/orchestrate.py'
 VARIANTS = [
+    B('revert-registration-overwrites-the-recorded-time', 'utils/courier_utils.py',
+      "      self.data[address] = time_ if last_time is None else max(last_time, time_)", "      self.data[address] = time_", 'R-C20-19'),
+    OK('registration-keeps-the-newer-time-with-an-if', 'utils/courier_utils.py',
+       "      self.data[address] = time_ if last_time is None else max(last_time, time_)", "      if last_time is not None:\n        time_ = max(last_time, time_)\n      self.data[address] = time_"),
     OK('registration-logs-the-number-of-dead-workers', 'utils/courier_utils.py',
-       "    with self._lock:\n      self.data[address] = time_\n    logging.info('chainable: %s', f'registering worker",
-       "    with self._lock:\n      n_dead = sum(1 for v in self.data.values() if v is None)\n      self.data[address] = time_\n    logging.debug('chainable: %s', f'{n_dead} dead workers known')\n    logging.info('chainable: %s', f'registering worker"),
+       "    with self._lock:\n      last_time = self.data.get(address)\n",
+       "    with self._lock:\n      n_dead = sum(1 for v in self.data.values() if v is None)\n      logging.debug('chainable: %s', f'{n_dead} dead workers known')\n      last_time = self.data.get(address)\n"),
     OK('stage-names-the-none-test', 'chainables/orchestrate.py',
        "          if worker is not None:\n            remote_iterator = worker.async_iter(", "          got_worker = worker is not None\n          if got_worker:\n            remote_iterator = worker.async_iter("),
     OK('acquire-all-nested-instead-of-and', 'chainables/courier_worker.py',
        "      elif worker.is_available(self) and worker.acquire_by(self):\n        result.append(worker)", "      elif worker.is_available(self):\n        if worker.acquire_by(self):\n          result.append(worker)"),
     B('registration-drops-the-tombstones', 'utils/courier_utils.py',
-      "    with self._lock:\n      self.data[address] = time_\n    logging.info('chainable: %s', f'registering worker",
-      "    with self._lock:\n      for dead in [k for k, v in self.data.items() if v is None]:\n        del self.data[dead]\n      self.data[address] = time_\n    logging.info('chainable: %s', f'registering worker", 'R-C20-17'),
+      "    with self._lock:\n      last_time = self.data.get(address)\n",
+      "    with self._lock:\n      for dead in [k for k, v in self.data.items() if v is None]:\n        del self.data[dead]\n      last_time = self.data.get(address)\n", 'R-C20-17'),
     B('stage-drops-a-worker-it-just-acquired', 'chainables/orchestrate.py',
       "          if worker is not None:\n            remote_iterator = worker.async_iter(", "          if worker is not None and not result_q.enqueue_done:\n            remote_iterator = worker.async_iter(", 'R-C20-18'),
     B('dead-marker-deferred-to-the-shutdown-callback', 'utils/courier_utils.py',
